@@ -20,6 +20,7 @@ from ._internal_utils import application_id_look_up
 from .base import DiameterMessage
 from .config import *
 from .exceptions import ProcessRequestException
+from .exceptions import DiameterAssociationError
 from .process import BaseMessageProcessor
 from .utils import is_client_mode
 from .utils import is_server_mode
@@ -264,9 +265,13 @@ class WaitConnAck(State):
     def run(self) -> None:
         self.set_wait_conn_ack_state(set_name=True)
 
-        if self.association.stop_requested:
+        if self.association.stop_requested and \
+                not self.association.is_starting:
             #: The application does not want the connection any more and
             #: nothing has been opened yet: there is nobody to send a DPR to.
+            #: (While start() is still setting the transport and its threads
+            #: up there is nothing complete to give up: the request is acted
+            #: upon on a later tick.)
             self.set_closed_state()
             return
 
@@ -636,7 +641,12 @@ class PeerStateMachine():
 
         elif next_state == CLOSED and self.current_state.name != CLOSED:
             self.is_running = False
-            self.association.close()
+            try:
+                self.association.close()
+            except DiameterAssociationError:
+                #: The transport never came up: there is nothing to release,
+                #: and the state machine still has to end up Closed.
+                pass
 
         if next_state in self.states:
             if self.current_state.name != next_state:
